@@ -106,6 +106,50 @@ def monitor(s, a, rt):
     return fails
 
 
+def probe_trigger_outlives_machine():
+    """A trigger obtained from the machine (bound onto another object, an item of allowed_events) is the
+    same entry point as `send`: it keeps working when it is the only thing that still refers to the machine."""
+    import gc
+    import warnings
+    from statemachine import State, StateMachine
+    fails = []
+    with warnings.catch_warnings():
+        warnings.simplefilter("ignore")
+
+        class M(StateMachine):
+            a = State(initial=True)
+            b = State()
+            c = State(final=True)
+            go = a.to(b) | b.to(c)
+            back = b.to(a)
+
+        class Mdl:
+            state = None
+
+        def factory():
+            m = Mdl()
+            sm = M(m)
+            sm.bind_events_to(m)
+            return m
+
+        def lone_trigger():
+            m = Mdl()
+            return m, [e for e in M(m).allowed_events if e == "go"][0]
+
+        for label, thunk in (("bound onto the model", lambda: (lambda m: (m, m.go))(factory())), ("item of allowed_events", lone_trigger)):
+            try:
+                m, trig = thunk()
+                gc.collect()
+                trig()
+                gc.collect()
+                trig()
+                if m.state != "c":
+                    fails.append(f"trigger {label}: two calls of `go` left the model in {m.state!r}, expected 'c'")
+            except Exception as e:
+                fails.append(f"trigger {label}: {type(e).__name__}: {e}")
+    return fails
+
+
 def run(ctx):
     lean_obligations(ctx)
     ctx.coverage["rule"] = ("seeded random machines and histories; every send uses one of five calling styles (sm.send, "
@@ -113,6 +157,9 @@ def run(ctx):
                             "object with bind_events_to); 22% of sends use a name drawn from dir(StateMachine), state "
                             "ids, dunders, near-misses ('Go', 'go ') under allow on/off; allowed_events/events observed "
                             "throughout; non-trivial = >=2 styles mixed or an attribute name sent")
+    pf = probe_trigger_outlives_machine()
+    if pf:
+        ctx.violation(ctx.write_replay("trigger_outlives_machine.txt", "\n".join(pf) + "\n"), pf[0])
     engine_check(ctx, PROFILE, 800, 20000, nontrivial, monitor=monitor, tag="C13s", mutate=mutate)
     cov1 = dict(ctx.coverage)
     engine_check(ctx, PROFILE_ASYNC, 250, 8000, nontrivial, monitor=monitor, tag="C13a", mutate=mutate)
